@@ -929,47 +929,41 @@ def with_field(base, what, where=None, highlevel=True, behavior=None):
         if where in base.keys():
             keys.remove(where)
 
-        if len(keys) == 0:
-            # the only key was removed, so just create new Record
-            out = (ak.layout.RecordArray([what], [where], parameters=base.parameters),)
-
-        else:
-
-            def getfunction(inputs):
-                nplike = ak.nplike.of(*inputs)
-                base, what = inputs
-                if isinstance(base, ak.layout.RecordArray):
-                    if what is None:
-                        what = ak.layout.IndexedOptionArray64(
-                            ak.layout.Index64(nplike.full(len(base), -1, np.int64)),
-                            ak.layout.EmptyArray(),
-                        )
-                    elif not isinstance(what, ak.layout.Content):
-                        what = ak.layout.NumpyArray(nplike.repeat(what, len(base)))
-                    if base.istuple and where is None:
-                        recordlookup = None
-                    elif base.istuple:
-                        recordlookup = keys + [where]
-                    elif where is None:
-                        recordlookup = keys + [str(len(keys))]
-                    else:
-                        recordlookup = keys + [where]
-                    out = ak.layout.RecordArray(
-                        [base[k] for k in keys] + [what],
-                        recordlookup,
-                        parameters=base.parameters,
+        def getfunction(inputs):
+            nplike = ak.nplike.of(*inputs)
+            base, what = inputs
+            if isinstance(base, ak.layout.RecordArray):
+                if what is None:
+                    what = ak.layout.IndexedOptionArray64(
+                        ak.layout.Index64(nplike.full(len(base), -1, np.int64)),
+                        ak.layout.EmptyArray(),
                     )
-                    return lambda: (out,)
+                elif not isinstance(what, ak.layout.Content):
+                    what = ak.layout.NumpyArray(nplike.repeat(what, len(base)))
+                if base.istuple and where is None:
+                    recordlookup = None
+                elif base.istuple:
+                    recordlookup = keys + [where]
+                elif where is None:
+                    recordlookup = keys + [str(len(keys))]
                 else:
-                    return None
+                    recordlookup = keys + [where]
+                out = ak.layout.RecordArray(
+                    [base[k] for k in keys] + [what],
+                    recordlookup,
+                    parameters=base.parameters,
+                )
+                return lambda: (out,)
+            else:
+                return None
 
-            out = ak._util.broadcast_and_apply(
-                [base, what],
-                getfunction,
-                behavior,
-                right_broadcast=False,
-                pass_depth=False,
-            )
+        out = ak._util.broadcast_and_apply(
+            [base, what],
+            getfunction,
+            behavior,
+            right_broadcast=False,
+            pass_depth=False,
+        )
 
         assert isinstance(out, tuple) and len(out) == 1
 
